@@ -12,6 +12,7 @@ import Mfi.Lemmas.SkelL
 import Mfi.Lemmas.AccL
 import Mfi.Props.C10
 import Mfi.Lemmas.WorldL
+import Mfi.Lemmas.WorldTxL
 
 namespace Mfi.Props.C11
 open Mfi Mfi.Tx Mfi.Gen Mfi.Props.C10
@@ -267,6 +268,67 @@ theorem world_end_flashloan_enforces_health {c : Ctx} {stack f : Nat} (h : World
   simp [evalChk, Ctx.env, AccV.key] at hc'
   refine ⟨hc', by simpa using Bank.chk_ok hs, by simpa using Bank.chk_ok h1, by simpa using Bank.chk_ok h2,
     by simpa using Bank.chk_ok h3, clear_flag _, ps, hps, hh⟩
+
+/-! ### flash loans inside whole TRANSACTIONS of the world state machine (Mfi/Model/WorldTx.lean)
+
+A transaction is any list of whole instructions (`World.WOp`: deposit, withdraw, borrow, repay, close, liquidate, bankruptcy,
+transfer, the cranks) and of the two flash-loan instructions, by any signers on any accounts and banks with any arguments,
+executed in order; one refused instruction rolls the whole transaction back. The health checks inside are the risk-engine
+model's own (not an oracle). -/
+
+/-- **world_start_flashloan_spec**: `lending_account_start_flashloan` goes through only when signed by the account's authority,
+    from a position BEFORE `end_index`, with a top-level marginfi `lending_account_end_flashloan` for THIS account at
+    `end_index`, on an account that is neither disabled, already in a flash loan, in receivership nor frozen; all it does is
+    set the in-flash-loan flag. -/
+theorem world_start_flashloan_spec {c : Ctx} {cur endIdx : Nat} {endIx : Option Bool} {f : Nat}
+    (h : startFlashloan c cur endIdx endIx = .ok f) :
+    c.a.authority = c.signer ∧ cur < endIdx ∧ endIx = some true ∧
+    flag c ACCOUNT_DISABLED = false ∧ flag c ACCOUNT_IN_FLASHLOAN = false ∧ flag c ACCOUNT_IN_RECEIVERSHIP = false ∧
+    flag c ACCOUNT_FROZEN = false ∧ f = c.a.flags ||| ACCOUNT_IN_FLASHLOAN.toNat :=
+  startFlashloan_ok h
+
+/-- no whole instruction other than the start raises an in-flash-loan flag: every account flagged after it was flagged before -/
+theorem world_instruction_raises_no_flash_flag (w : WState) (op : WOp) : NoNewFlash w (w.step op) := step_noNew w op
+
+/-- **world_tx_no_flash_survives**: a COMMITTED transaction of the world state machine, whatever it contains, leaves no account
+    flagged in-flash-loan (when none was before it): every start named an end for the same account further down, every other
+    instruction leaves the flags of the accounts it does not end as they are, and a committed transaction ran that end. -/
+theorem world_tx_no_flash_survives {w w' : WState} {tx : List TOp} (h : w.runTx tx = some w')
+    (h0 : ∀ (k : Nat) (a : AcctV), w.accts[k]? = some a → inFlash a = false) :
+    ∀ (k : Nat) (a : AcctV), w'.accts[k]? = some a → inFlash a = false :=
+  runTx_noFlash h h0
+
+/-- … and so over every sequence of transactions, committed or rolled back: between transactions nobody is in a flash loan -/
+theorem world_txs_no_flash_survives (txs : List (List TOp)) (w : WState)
+    (h0 : ∀ (k : Nat) (a : AcctV), w.accts[k]? = some a → inFlash a = false) :
+    ∀ (k : Nat) (a : AcctV), (w.runTxs txs).accts[k]? = some a → inFlash a = false :=
+  runTxs_noFlash txs w h0
+
+/-- **world_tx_every_end_enforces_health**: in a committed transaction every `lending_account_end_flashloan` ran, and the state
+    it ran on — everything the instructions inside the bracket did to the account included — passed the FULL initial-margin
+    check on the account's whole portfolio with the flag already cleared, signed by the account's authority. -/
+theorem world_tx_every_end_enforces_health {w w' : WState} {tx : List TOp} (h : w.runTx tx = some w')
+    {j k s : Nat} (hj : tx[j]? = some (.endFlash k s)) :
+    ∃ (wj : WState) (a : AcctV), wj.accts[k]? = some a ∧ a.authority = s ∧
+      ∃ ps, portfolio (wj.actx a s) a.slots noBank.books = .ok ps ∧ Risk.checkInitHealth ps = .ok () := by
+  obtain ⟨wj, a, f, ha, hf⟩ := runFrom_ends tx tx 0 w w' rfl h j k s (Nat.zero_le _) hj
+  obtain ⟨h1, _, _, _, _, _, ps, hps, hh⟩ := world_end_flashloan_enforces_health hf
+  exact ⟨wj, a, ha, h1, ps, hps, hh⟩
+
+/-- a small world: one account without positions, no banks -/
+def demoWorld : WState :=
+  { now := 100,
+    g := { key := 1, admin := 2, riskAdmin := 3, paused := false, progFeeRate := 0, window := { dailyLimit := 0, withdrawnToday := 0, lastReset := 0 } },
+    accts := [{ key := 5, group := 1, authority := 7, flags := 0, slots := List.replicate 16 Account.emptySlot }],
+    banks := [], dustA := fun _ => 0, dustL := fun _ => 0 }
+
+/-- a bracket commits; a start without its end, an end before its start, a start by someone else do not (the hypotheses of the
+    transaction theorems are satisfiable, and the refusals are real) -/
+example : (demoWorld.runTx [.startFlash 0 7 1, .endFlash 0 7]).isSome = true := by decide
+example : (demoWorld.runTx [.startFlash 0 7 1]).isSome = false := by decide
+example : (demoWorld.runTx [.endFlash 0 7, .startFlash 0 7 0]).isSome = false := by decide
+example : (demoWorld.runTx [.startFlash 0 8 1, .endFlash 0 7]).isSome = false := by decide
+example : (demoWorld.runTx [.startFlash 0 7 2, .ix (.tick 0), .endFlash 0 7]).isSome = true := by decide
 
 end whole_instructions
 
